@@ -39,6 +39,27 @@ def entry_points(text, fmt):
     return out
 
 
+def cli_accepts(text):
+    """`demes parse <file>` in-process: True when it exits normally (status 0)"""
+    import contextlib
+    import demes.__main__ as M
+    fd, path = tempfile.mkstemp(suffix=".yaml", dir=os.path.join(os.path.dirname(os.path.dirname(os.path.dirname(os.path.abspath(__file__)))), "evidence"))
+    try:
+        with os.fdopen(fd, "w") as fh:
+            fh.write(text)
+        buf = io.StringIO()
+        try:
+            with contextlib.redirect_stdout(buf), contextlib.redirect_stderr(io.StringIO()):
+                M.cli(["parse", path])
+            return True
+        except SystemExit as e:
+            return e.code in (0, None)
+        except Exception:  # noqa: BLE001
+            return False
+    finally:
+        os.unlink(path)
+
+
 def inject_null(doc, rng):
     d = copy.deepcopy(doc)
     ps = [p for p in M.paths(d) if p]
@@ -170,6 +191,10 @@ def run(ctx):
                             ctx.disagreement("load_asdict_value(null)", {"document": show(canon_doc(d)), "format": fmt}, ok, r)
                     if outside and ok:
                         ctx.violation(f"{name}(format={fmt}) accepts a document with a null outside metadata", {"document": show(canon_doc(d)), "path": list(p), "format": fmt})
+                    if name == "loads_asdict" and fmt == "yaml" and ctx.rng.random() < 0.3:
+                        ctx.count({"doc": show(canon_doc(d)), "entry": "cli"}, True, tags=["null:cli"])
+                        if outside and cli_accepts(text):
+                            ctx.violation("the CLI (demes parse) accepts a document with a null outside metadata", {"document": show(canon_doc(d)), "path": list(p)})
                     if not outside and name == "loads_asdict":
                         if not ok:
                             ctx.violation("a null inside metadata is refused", {"document": show(canon_doc(d)), "path": list(p), "format": fmt})
